@@ -99,6 +99,7 @@ func (m *impl) Close() { m.w.Close() }
 func (m *impl) Exec(op hx.Zs) []hx.Zs {
 	obs := m.w.Exec(op)
 	if len(op) > 0 && op[0] == 1 && len(obs) > 0 && len(obs[0]) == 2 {
+		kinds[classify(m.w.ti, op, obs[0][1])]++
 		switch {
 		case obs[0][1] == 1:
 			stats["updates_failed"]++
@@ -142,10 +143,158 @@ func gen(r *hx.Rng, tier string, i int) []hx.Zs {
 	}
 	h := ti.GenHistory(r, cfg)
 	h[0] = initOp(ti, fam)
+	h = addFilterless(r, ti, fam, h)
 	perType[string(ti.Function)]++
 	perFamily[fmt.Sprint(fam)]++
 	return h
 }
+
+// an item of type ti: identifier fields set (values 1..3) or all left out, the writecheck field
+// absent / false / true, the other fields set with probability 3/5
+func genItem(r *hx.Rng, ti *upd.TypeInfo, withKey bool) []int64 {
+	it := make([]int64, len(ti.Fields))
+	isKey := map[int]bool{}
+	for _, k := range ti.Keys {
+		isKey[k] = true
+	}
+	for i, f := range ti.Fields {
+		d := f.Domain
+		if d > 4 {
+			d = 4
+		}
+		switch {
+		case isKey[i]:
+			if withKey {
+				kd := d - 1
+				if kd < 1 {
+					kd = 1
+				}
+				it[i] = int64(1+r.Intn(kd)) + 1
+			}
+		case f.WriteCheck:
+			it[i] = int64(r.Pick(2, 3, 4))
+		default:
+			if r.Chance(3, 5) && d > 0 {
+				it[i] = int64(r.Intn(d)) + 1
+			}
+		}
+	}
+	return it
+}
+
+// addFilterless crosses the FILTER-LESS update path (no partial filter, no delete filter) with every
+// list kind (identified items, one identifier-less item = apply to all, mixed either way round),
+// persist yes / no where the API offers it, local / remote write where the API offers it; the
+// generator of harness/upd only produces filter-less updates that persist (full replace) or that
+// carry identified items.  One to three such updates are inserted after the first operation,
+// usually behind a DataCopy.
+func addFilterless(r *hx.Rng, ti *upd.TypeInfo, fam int, h []hx.Zs) []hx.Zs {
+	if len(h) < 2 || !r.Chance(2, 3) {
+		return h
+	}
+	none := upd.Filter{}
+	for n := r.Range(1, 3); n > 0; n-- {
+		var items [][]int64
+		switch r.Pick(3, 5, 2, 2) {
+		case 0: // identified items: Merge
+			for k := r.Range(1, 3); k > 0; k-- {
+				items = append(items, genItem(r, ti, true))
+			}
+		case 1: // one item without identifier: copyToAllData
+			items = [][]int64{genItem(r, ti, false)}
+		case 2: // identifier-less first, identified after: still copyToAllData with the first
+			items = [][]int64{genItem(r, ti, false), genItem(r, ti, true)}
+		default: // identified first, an identifier-less one behind: Merge of an ill-formed list
+			items = [][]int64{genItem(r, ti, true), genItem(r, ti, false)}
+		}
+		remote, persist, wire := int64(0), int64(1), int64(0)
+		switch fam {
+		case 0:
+			remote = int64(r.Pick(3, 2))
+			persist = int64(r.Pick(3, 1))
+		case 2:
+			persist = int64(r.Pick(3, 1))
+			if persist == 1 && r.Chance(1, 3) {
+				wire = int64(1 + r.Intn(2))
+			}
+		default:
+			if r.Chance(1, 3) {
+				remote, wire = 1, 1
+			}
+		}
+		op := ti.EncodeUpdate(remote, persist, wire, items, none, none)
+		pos := r.Range(2, len(h))
+		ins := []hx.Zs{op}
+		if r.Chance(2, 3) {
+			ins = []hx.Zs{{2}, op}
+		}
+		h = append(h[:pos:pos], append(ins, h[pos:]...)...)
+	}
+	return h
+}
+
+// classify names the update kind of an operation for the measured distribution
+func classify(ti *upd.TypeInfo, op hx.Zs, code int64) string {
+	if ti == nil || len(op) < 6 {
+		return "?"
+	}
+	n, nf := int(op[4]), int(op[5])
+	pos := 6 + n*nf
+	if pos >= len(op) {
+		return "?"
+	}
+	hasFp := op[pos] != 0
+	fpSel := false
+	if hasFp {
+		if pos+5 > len(op) {
+			return "?"
+		}
+		fpSel = op[pos+1] != 0
+		pos += 5 + int(op[pos+3])*b2n(op[pos+1]) + int(op[pos+4])*b2n(op[pos+2])
+	} else {
+		pos++
+	}
+	hasFd := pos < len(op) && op[pos] != 0
+	ident := "no-items"
+	if n > 0 && nf == len(ti.Fields) {
+		ident = "identified"
+		for _, k := range ti.Keys {
+			if op[6+k] == 0 {
+				ident = "identifier-less"
+			}
+		}
+	}
+	kind := "filter-less"
+	switch {
+	case hasFd && hasFp:
+		kind = "delete+partial"
+	case hasFd:
+		kind = "delete"
+	case fpSel:
+		kind = "partial+selector"
+	case hasFp:
+		kind = "partial"
+	}
+	who := "local"
+	if op[1] != 0 {
+		who = "remote-write"
+	} else if op[3] == 1 {
+		who = "notify"
+	} else if op[3] == 2 {
+		who = "reply"
+	}
+	res := map[int64]string{0: "ok", 1: "failed", 2: "panic"}[code]
+	return fmt.Sprintf("%s/%s/%s/persist=%d/%s", kind, ident, who, b2n(op[2]), res)
+}
+
+func b2n(v int64) int {
+	if v != 0 {
+		return 1
+	}
+	return 0
+}
+
+var kinds = map[string]int{}
 
 // the witnesses of coq/Properties/C11.v on billConstraintsListData, on every family that can run them
 func fixed(tier string) [][]hx.Zs {
@@ -184,6 +333,15 @@ func fixed(tier string) [][]hx.Zs {
 			ti.EncodeUpdate(0, 1, 0, nil, sel(2), none),
 			ti.EncodeUpdate(0, 1, 0, [][]int64{{0, 5, 0}}, sel(3), none), {2}})
 	}
+	// the filter-less path: no filters, persist=false, an item without identifier (copyToAllData writes in
+	// place), an identified list (Merge), and mixed; after a DataCopy
+	for _, fam := range []int{0, 2} {
+		out = append(out, []hx.Zs{initOp(ti, fam),
+			ti.EncodeUpdate(0, 1, 0, [][]int64{{2, 1, 1}, {3, 1, 1}}, none, none), {2},
+			ti.EncodeUpdate(0, 0, 0, [][]int64{{0, 5, 0}}, none, none), {2},
+			ti.EncodeUpdate(0, 0, 0, [][]int64{{3, 6, 0}, {4, 6, 6}}, none, none), {2},
+			ti.EncodeUpdate(0, 0, 0, [][]int64{{0, 7, 0}, {3, 8, 8}}, none, none), {2}})
+	}
 	// a refused remote write on a writecheck type: item 1 not changeable, identifier-less data for all
 	if lc := byName["loadControlLimitListData"]; lc != nil && len(lc.WC) == 1 {
 		mk := func(id, flag, val int64) []int64 {
@@ -206,6 +364,10 @@ func fixed(tier string) [][]hx.Zs {
 				lc.EncodeUpdate(0, 1, 0, [][]int64{mk(1, 2, 1), mk(2, 1, 1)}, none, none), {2},
 				lc.EncodeUpdate(1, 1, wire, [][]int64{mk(0, 0, 2)}, part, none), {2}})
 		}
+		// the same refused write without any filter and without persistence (bare FunctionData only)
+		out = append(out, []hx.Zs{initOp(lc, 0),
+			lc.EncodeUpdate(0, 1, 0, [][]int64{mk(1, 2, 1), mk(2, 1, 1)}, none, none), {2},
+			lc.EncodeUpdate(1, 0, 0, [][]int64{mk(0, 0, 2)}, none, none), {2}})
 	}
 	return out
 }
@@ -231,7 +393,7 @@ func main() {
 					"writecheck_flag_restored": quirks[1], "delete_checks_addressed_items_only": quirks[2],
 					"merge_fails_for_addressed_items_only": quirks[3], "merge_fails_for_unknown_identifier": quirks[4],
 					"selector_skips_item_without_value": quirks[5], "selector_update_without_data_fails": quirks[6]},
-				"model_variant_fixed": fixedFlag, "concurrent_reader": !noReader, "measured": stats}
+				"update_kinds_measured": kinds, "model_variant_fixed": fixedFlag, "concurrent_reader": !noReader, "measured": stats}
 		},
 	})
 }
